@@ -2,7 +2,12 @@
 import json, glob, os
 V = os.path.dirname(os.path.dirname(os.path.dirname(os.path.abspath(__file__))))
 rows = []
-for d in sorted(glob.glob(os.path.join(V, "seeded", "*"))):
+def natural(d):
+    a, b = os.path.basename(d).split("-")
+    return (a, int(b))
+
+
+for d in sorted(glob.glob(os.path.join(V, "seeded", "*")), key=natural):
     m = json.load(open(os.path.join(d, "meta.json")))
     runs = m.get("runs", [])
     hist = []
@@ -17,6 +22,6 @@ for d in sorted(glob.glob(os.path.join(V, "seeded", "*"))):
                 key = v[0].split("replay=")[1].split("/")[-1].rsplit("-", 1)[0] if v else "?"
                 hist.append("%s: failing input (%s)" % (c, key))
     demo = "%s/%s" % (runs[-1]["demo_without_patch"], runs[-1]["demo_with_patch"]) if runs else "-"
-    rows.append("| %s | %s | %s | %s | %s |" % (os.path.basename(d), m.get("summary", "")[:110].replace("|", "/").replace("\n", " "), m.get("needs", "")[:90].replace("|", "/").replace("\n", " "), demo, " → ".join(hist) or "not run"))
-print("| seeded change | what it does | needs | demo exit (clean/patched) | check runs (chronological) |\n|---|---|---|---|---|")
+    rows.append("| %s | %s | %s | %s | %s |" % (os.path.basename(d), m.get("summary", "")[:110].replace("|", "/").replace("\n", " "), m.get("needs", "")[:90].replace("|", "/").replace("\n", " "), demo, (("first run: %s; last run: %s (%d runs)" % (hist[0], hist[-1], len(hist))) if len(hist) > 1 else (hist[0] if hist else "not run"))))
+print("| seeded change | what it does | needs | demo exit (clean/patched) | check runs (first and last of the recorded runs) |\n|---|---|---|---|---|")
 print("\n".join(rows))
